@@ -35,6 +35,20 @@ CHECKS = {
         note="Priority keys use LSU without the regional factor (named deviation PriorityIgnoresRegionalFactor: main() "
              "sorts before the factor is applied). Meat kcal per head is an input chosen by the harness. Tolerances as C06.",
     ),
+    "C10": dict(
+        technique="TLA+ spec Units.tla: conversion laws checked by TLC on monomial exponent vectors for all pairs/triples of "
+                  "unit names; exported table replayed against get_conversion / in_units with exact fractions",
+        text="Units.tla writes every supported unit as a monomial c*10^e*POP^a*KD^b*FD^c*PD^d derived from the unit's "
+             "definition (not from the code). TLC evaluates RoundTrip, ViaEqualsDirect, FormPreserved and the eleven anchor "
+             "identities for all pairs and triples of the 15+18+18 names (about 16k law instances, valid for every positive "
+             "parameter setting because they are statements about exponent vectors). The table is then evaluated with exact "
+             "fractions at 12 (thorough: 400) parameter settings and compared with the real get_conversion for all 873 "
+             "ordered pairs and with in_units (labels, label list, shape, values, round trip, operand unchanged) on "
+             "scalars and series, plus the anchors through the in_units_* helpers.",
+        design_ref="5 (C10), Units.tla",
+        note="The laws are constant-level (ASSUME) so TLC reports no states; coverage is counted as law instances and "
+             "replayed conversions. Float comparison at 1e-11 relative.",
+    ),
     "C11": dict(
         technique="TLA+ spec FoodAlgebra.tla: TLC enumerates every operation transition (depth 2-3) and each is replayed "
                   "on real Food objects; metamorphic scalar-vs-series replay of the 16 predicates under 4 flag settings",
